@@ -45,6 +45,11 @@ claimed = {
    technique='exhaustive enumeration of operand spaces against exact arithmetic (complete for 8-bit and, in the thorough tier, 16-bit types; complete cross product of a boundary alphabet for 32/64-bit)',
    text='SafeAdd/Sub/Mul/Div for every operand pair and SafeLeftShift for every (value, shift 0..255) pair of int8/uint8 (quick and thorough) and int16/uint16 (thorough: all 2^32 pairs; quick: every value against the boundary alphabet in both positions) are compared with int64 arithmetic; for 32/64-bit types, SafeMulUint64, SafeMulInt64 and Safe64MulDiv (triples) the complete cross product of a boundary alphabet (0, +-1..3, min/max+-3, +-2^k(+-1) for every k, sqrt(max)+-1, max/a+-1) is compared with math/big. Representable => exact value and nil error; otherwise exactly the overflow / division-by-zero error.',
    note='Exhaustive only for the 8/16-bit spaces; 32/64-bit is exhaustive over the stated alphabet, not over all operands (stated in evidence: exhaustive=false for those parts). Three genuine defects repaired (fix: commits).', ref='2 C19'),
+
+ 'C11': dict(cat='model_checking', engine='H+S',
+   technique='explicit-state breadth-first search to the fixpoint of the reachable state space against an insertion-ordered reference model; stateless model checking (all interleavings with state cache, preemption-bounded DFS) of concurrent callers',
+   text='H: over universe {1,2,3} the complete reachable state spaces of OrderedMap (Set/Delete/Clear, iteration whose consumer deletes the visited key), ds.Set (Add/Delete/AddAll/DeleteAll/Replace/Apply/Compute/Clear/Encode-Decode with all 8 subsets, all disjoint mutation pairs and the set itself as arguments) and SetArithmetic (Add/Subtract, thresholds 1 and 2) are explored; after every step every probe (order forwards/backwards, Has/HasAll/Equals/Intersect/Filter/Clone/Is/Any/Iterator/Size, Head/Tail) and every returned diff is compared with the model (diff == exactly the elements whose membership changed). S: 7 scenarios (DeleteAll||Apply, AddAll||DeleteAll||Replace, Compute||Compute, Compute||Apply||Replace, Apply||Apply, Add/Delete/Has with porcupine, OrderedMap Set/Delete||ForEach): every interleaving; no deadlock, results explainable by a serial order.',
+   note='Trusted: reference model; Apply exercised with disjoint added/deleted sets. Two genuine defects repaired (fix: commits).', ref='2 C11'),
 }
 na_reason = 'check not built yet in this round (engine exists; see DESIGN.md section 9 for the order of work)'
 checks = []
